@@ -1,6 +1,6 @@
 (* Property C10 — statutory rounding.  Re-statement of the theorems the check relies on. *)
 From Coq Require Import ZArith QArith Qcanon Bool String List.
-From GettsimModel Require Import Num Val Ast PolicyEnv Rounding ChkC10.
+From GettsimModel Require Import Num Val Ast Eval PolicyEnv Rounding Column Dag Scalar Table TableRound ChkC10.
 Import ListNotations.
 Open Scope Qc_scope.
 
@@ -55,3 +55,34 @@ Example C10_examples :
   round_to (qfrac 5 1) DNearest 0 (qfrac 35 2) = qfrac 20 1 /\      (* 3.5 -> 4 (even) *)
   round_to (qfrac 5 1) DNearest 0 (qfrac 25 2) = qfrac 10 1.        (* 2.5 -> 2 (even) *)
 Proof. vm_compute. repeat split; reflexivity. Qed.
+
+(* ---- exactly once, on the concrete model engine Table.sem (any rule table, parameters, node, columns) ---- *)
+
+(* a rule marked for rounding: with rounding on the column is the column with rounding off, rounded *)
+Theorem C10_marked_rule_rounded_once : forall ft P nrows n cols g, marked n = Some g ->
+  sem ft P true nrows n cols = (do c <- sem ft P false nrows n cols; round_column P g (d_name n) c).
+Proof. exact sem_rounded. Qed.
+Print Assumptions C10_marked_rule_rounded_once.
+
+(* ... cell by cell with the specification loaded for that rule *)
+Theorem C10_rounded_cells : forall P g name c c', round_column P g name c = Ok c' ->
+  col_dtype c' = TFloat /\ col_len c' = col_len c /\
+  forall i v, nth_error (col_vals c) i = Some v ->
+    exists r w, apply_rounding P g name v = Ok r /\ cast TFloat r = Ok w /\ nth_error (col_vals c') i = Some w.
+Proof. exact round_column_cells. Qed.
+Print Assumptions C10_rounded_cells.
+
+(* every other node — unmarked rules, unit conversions, group reductions, pointer sums, joins, id builders — is computed
+   from its argument columns in the same way with rounding on or off: columns derived from a rounded column are not
+   rounded again *)
+Theorem C10_derived_columns_not_rounded_again : forall ft P nrows n cols, marked n = None ->
+  sem ft P true nrows n cols = sem ft P false nrows n cols.
+Proof. exact sem_not_rounded. Qed.
+Print Assumptions C10_derived_columns_not_rounded_again.
+
+(* a marked rule without a specification in the loaded parameters is an error on every non-empty table *)
+Theorem C10_missing_spec_is_error : forall P g name c,
+  (forall gv, pget g P = Some gv -> forall spec, path_get gv [KStr "rounding"; KStr name] <> Ok (VDict spec)) ->
+  col_vals c <> [] -> round_column P g name c = Err EKey.
+Proof. exact missing_spec_is_error. Qed.
+Print Assumptions C10_missing_spec_is_error.
